@@ -16,7 +16,8 @@ def plan(tier):
         single = [(a,) for a in (1, 3, 8, 11)]
         shared = [(a,) for a in (1, 3, 8, 11, 14)]
     else:
-        pairs = [(a, e) for a in range(21) for e in range(8)]
+        # deep: every algorithm with one enc per class (CBC-HS, GCM, C20P) + XC20P, and every enc with three algorithms
+        pairs = sorted(set([(a, e) for a in range(21) for e in (0, 3, 6, 7)] + [(a, e) for a in (3, 7, 14) for e in range(8)]))
         two = [(a,) for a in range(21)]
         single = [(a,) for a in range(17)]
         shared = [(a,) for a in range(17)]
@@ -35,7 +36,7 @@ def plan(tier):
         "files": ["jwe.py", "rfc7516/message.py", "rfc7516/compact.py", "rfc7516/json.py", "rfc7516/models.py", "rfc7516/registry.py",
                   "rfc7518/jwe_algs.py", "rfc7518/jwe_encs.py", "rfc7518/jwe_zips.py", "rfc7518/derive_key.py", "drafts/jwe_ecdh_1pu.py",
                   "drafts/jwe_chacha20.py"],
-        "bounds": {"alg x enc": "%d pairs (quick) / all 21 x 8 (thorough)" % len(pairs), "curves": "P-256, P-384, P-521, secp256k1, X25519, X448",
+        "bounds": {"alg x enc": "%d pairs (quick) / 96 pairs (thorough)" % len(pairs), "curves": "P-256, P-384, P-521, secp256k1, X25519, X448",
                    "plaintext / AAD": "every octet string <= 2 octets, AAD absent or <= 2", "serializations": "compact, flattened, general (1..2 recipients of mixed algs)",
                    "header placement": "protected / shared unprotected / per-recipient", "key forms": "key, 3-key set (symbolic random pick)"},
         "outside": ["real AES/RSA/ECDH/DEFLATE behaviour (ideal tables): block-aligned vs unaligned plaintexts are indistinguishable here", "3-4 recipients", "single-key decryption of a multi-recipient token is covered for 2 recipients without ECDH-1PU (single_key_mixed)",
@@ -43,4 +44,4 @@ def plan(tier):
         "stubs": ["ideal ice environment", "random.choice -> symbolic index"],
         "assumptions": ["ideal-primitive model (DESIGN.md §2.1)"],
     }
-    return {"conds": conds, "obls": [], "meta": meta}
+    return {"conds": conds, "obls": [], "meta": meta, "deep_wall": 1500}
